@@ -595,3 +595,73 @@ def r_vote_refusal(ctx):
         ctx.require(n_end >= 3, 'refusal paths not found')
         ctx.ok(inst, R.handler.loc(cfg.nodes[entry].ast), '%d refusing path classes, each entails a refusal reason' % n_end)
     ctx.expect_min(1)
+
+
+def _must_reset(ctx, func, attr, value, depth=0):
+    """CFG node ids of `func` that certainly set self.<attr> to the constant `value`: a direct assignment, or a call of a
+    method of the class every normal path of which does so (one level of helpers, bounded depth)"""
+    P = ctx.P
+    cfg = U.explorer(ctx, func).cfg
+    out = []
+    for n in cfg.nodes:
+        if n.kind != 'stmt' or n.ast is None:
+            continue
+        a = n.ast
+        if isinstance(a, ast.Assign) and any(P.self_attr(t, func.self_name) == attr for t in a.targets) and isinstance(a.value, ast.Constant) and a.value.value == value:
+            out.append(n.id)
+            continue
+        if depth < 2:
+            for c in [x for x in ast.walk(a) if isinstance(x, ast.Call)]:
+                r = P.resolve_call(func, c)
+                if r.kind == 'method' and r.targets and all(t is not func and _always_resets(ctx, t, attr, value, depth + 1) for t in r.targets):
+                    out.append(n.id)
+    return out
+
+
+def _always_resets(ctx, func, attr, value, depth):
+    cfg = U.explorer(ctx, func).cfg
+    resets = _must_reset(ctx, func, attr, value, depth)
+    return bool(resets) and cfg.exit.id not in cfg.reachable_from(cfg.entry.id, avoid=resets, follow_exc=False)
+
+
+@rule('R-tally-reset', 'every candidacy starts with a fresh vote tally: after the term is incremented the vote counter is set '
+                       'to 1 (the own vote) on every path, so votes of an earlier term are never added to those of the new one')
+def r_tally_reset(ctx):
+    P, R = ctx.P, ctx.R
+    # the tally: the attribute counter of a majority test over the voters
+    tallies = []
+    for f, cmpn, a, counter, th, lc in majority_sites(ctx):
+        ca = P.self_attr(counter, f.self_name)
+        if ca and a == R.voters and ca not in tallies:
+            tallies.append(ca)
+    ctx.require(tallies, 'no attribute vote counter in a majority test')
+    tally = tallies[0]
+    n_starts = 0
+    for f in P.methods_of(R.S):
+        incs = U.increments_of(P, f, R.currentTerm)
+        if not incs:
+            continue
+        cfg = U.explorer(ctx, f).cfg
+        resets = _must_reset(ctx, f, tally, 1)
+        for st in incs:
+            n = U.node_containing(cfg, st)
+            n_starts += 1
+            inst = '%s: candidacy `%s` resets the vote tally self.%s to 1' % (f.qualname, unparse(st), tally)
+            ctx.tick()
+            # the reset may precede the increment in the same straight-line block, or follow it on every path
+            blk = U.straight_line_block(cfg, n.id)
+            before = any(r in blk for r in resets)
+            starts = [d for d, l in n.succ if not (isinstance(l, tuple) and l[0] == 'exc')]
+            reach = set()
+            for d in starts:
+                if d in resets:
+                    continue
+                reach |= cfg.reachable_from(d, avoid=resets, follow_exc=False)
+            if before or cfg.exit.id not in reach:
+                ctx.ok(inst, f.loc(st), 'reset in the same block / on every path after the increment')
+            else:
+                ctx.violation('%s:candidacy-keeps-old-tally' % f.qualname, f.loc(st),
+                              'a new candidacy (term increment) can proceed without setting self.%s back to 1: votes collected in an earlier, lost election are added to the votes of '
+                              'the new term and a candidate can become leader without a majority of its term (two leaders in one term)' % tally, instance=inst)
+    ctx.require(n_starts >= 1, 'no candidacy start (term increment) found')
+    ctx.expect_min(1)
